@@ -42,6 +42,10 @@ pub struct Case {
     pub proxy: Option<(bool, bool)>,
     pub limit: u8,
     pub conns: Vec<Conn>,
+    /// instead of a Listener built by the harness: a passage instance (child process) that reads the same
+    /// settings from its layered configuration; backend calls are then not observable
+    #[serde(default)]
+    pub configured: Option<crate::layers::LayerPlan>,
 }
 
 pub struct C15;
@@ -73,8 +77,37 @@ enum Expect {
 fn decide(case: &Case, info: &mut CaseInfo) -> Verdict {
     let secret = b"c15-secret".to_vec();
     let cfg = ListenerCfg { proxy: case.proxy, limiter: Some((Duration::from_secs(1000), usize::from(case.limit))), timeout: Duration::from_secs(5), secret: Some(secret.clone()), ..Default::default() };
-    let run = net::start_listener(&cfg, NetScript::default(), 2);
-    let dst: SocketAddr = format!("127.0.0.1:{}", run.port).parse().unwrap();
+    let mut child = None;
+    let mut bare = None;
+    if let Some(plan) = &case.configured {
+        let mut c = serde_json::json!({
+            "address": format!("127.0.0.1:{}", net::free_port()),
+            "timeout": 5,
+            "auth_secret": String::from_utf8_lossy(&secret),
+            "rate_limiter": {"duration": 1000, "limit": case.limit},
+            "adapters": {
+                "discovery": {"fixed": {"targets": [{"identifier": "only", "address": "10.1.2.3:25565", "meta": {}}]}},
+                "filter": [],
+                "strategy": "any",
+                "authentication": {"fixed": {"profile": {"id": "11111111-2222-3333-4444-555555555555", "name": "C15", "properties": []}}},
+            }
+        });
+        if let Some((v1, v2)) = case.proxy {
+            c["proxy_protocol"] = serde_json::json!({"allow_v1": v1, "allow_v2": v2});
+        }
+        match crate::layers::start(&c, plan).or_else(|_| crate::layers::start(&c, plan)) {
+            Ok(l) => child = Some(l),
+            Err(e) => return Verdict::Inconclusive(format!("instance did not start: {e}")),
+        }
+        info.class("configured_instance");
+        info.class(format!("proxy_layer:{:?}", plan.proxy));
+        info.class(format!("limiter_layer:{:?}", plan.limiter));
+    } else {
+        bare = Some(net::start_listener(&cfg, NetScript::default(), 2));
+    }
+    let port = child.as_ref().map(|c| c.port).or(bare.as_ref().map(|r| r.port)).unwrap();
+    let how = child.as_ref().map(|c| format!("; instance configured through layers: {}", c.description)).unwrap_or_default();
+    let dst: SocketAddr = format!("127.0.0.1:{port}").parse().unwrap();
     let mut admitted: HashMap<IpAddr, usize> = HashMap::new();
     let mut verdict = Verdict::Pass;
     let mut refusals = 0;
@@ -82,7 +115,7 @@ fn decide(case: &Case, info: &mut CaseInfo) -> Verdict {
     let mut peers_seen = std::collections::BTreeSet::new();
     for (i, conn) in case.conns.iter().enumerate() {
         let peer_ip = format!("127.0.0.{}", 1 + conn.peer % 3);
-        let Ok(stream) = net::connect_from(&peer_ip, run.port) else {
+        let Ok(stream) = net::connect_from(&peer_ip, port) else {
             verdict = Verdict::Inconclusive(format!("connect from {peer_ip} failed"));
             break;
         };
@@ -113,7 +146,7 @@ fn decide(case: &Case, info: &mut CaseInfo) -> Verdict {
                 let _ = c.write_raw(&header_bytes);
             }
         }
-        let what = format!("connection #{i} from peer {peer} with header {:?} (proxy {:?}, limit {})", conn.header, case.proxy, case.limit);
+        let what = format!("connection #{i} from peer {peer} with header {:?} (proxy {:?}, limit {}{how})", conn.header, case.proxy, case.limit);
         let served_expected = match &expect {
             Expect::Unserved => false,
             Expect::Effective(a) => {
@@ -144,7 +177,7 @@ fn decide(case: &Case, info: &mut CaseInfo) -> Verdict {
             continue;
         }
         let Expect::Effective(effective) = expect else { unreachable!() };
-        let before = run.adapters.calls.lock().unwrap().len();
+        let before = bare.as_ref().map(|run| run.adapters.calls.lock().unwrap().len()).unwrap_or(0);
         if conn.full_login {
             // full login + routing: adapters and the issued cookie see the effective address
             let r: Result<Vec<u8>, String> = (|| {
@@ -191,6 +224,10 @@ fn decide(case: &Case, info: &mut CaseInfo) -> Verdict {
             }
         }
         // what the backend services saw
+        let Some(run) = bare.as_ref() else {
+            drop(c);
+            continue;
+        };
         let calls: Vec<(&'static str, serde_json::Value)> = run.adapters.calls.lock().unwrap()[before..].iter().map(|(_, k, a)| (*k, a.clone())).collect();
         if let Some((k, a)) = calls.iter().find(|(_, a)| a.get("client_addr").is_some_and(|v| v.as_str() != Some(effective.to_string().as_str()))) {
             verdict = Verdict::Fail { sig: "backend-sees-other-address".into(), msg: format!("{what}: effective client address {effective}, the {k} service was given {}", a["client_addr"]) };
@@ -202,7 +239,10 @@ fn decide(case: &Case, info: &mut CaseInfo) -> Verdict {
         }
         drop(c);
     }
-    run.shutdown();
+    if let Some(run) = bare {
+        run.shutdown();
+    }
+    drop(child);
     info.class(match case.proxy {
         None => "proxy:off",
         Some((true, true)) => "proxy:v1+v2",
@@ -244,9 +284,9 @@ impl Check for C15 {
                     Just(Header::None).boxed()
                 };
                 let conn = (0u8..3, header, prop::bool::weighted(0.2)).prop_map(|(peer, header, full_login)| Conn { peer, header, full_login });
-                (Just(proxy), 1u8..=4, proptest::collection::vec(conn, 5..30))
+                (Just(proxy), 1u8..=4, proptest::collection::vec(conn, 5..30), proptest::option::weighted(0.3, crate::layers::plan_strategy()))
             })
-            .prop_map(|(proxy, limit, conns)| Case { proxy, limit, conns })
+            .prop_map(|(proxy, limit, conns, configured)| Case { proxy, limit, conns, configured })
             .boxed()
     }
     fn max_shrink_iters(&self) -> u32 {
